@@ -52,6 +52,8 @@ type DBConf struct {
 
 // DB wraps a zenodb database opened on a scratch directory.
 type DB struct {
+	closed  int32
+	panics  atomic.Value // string: first Panic raised by zenodb while the DB was open
 	Z       *zenodb.DB
 	Dir     string
 	Schema  *Schema
@@ -94,19 +96,21 @@ func OpenDB(dir string, s *Schema, conf DBConf, marker *int64) (*DB, error) {
 	if coalesce <= 0 {
 		coalesce = 200 * time.Microsecond
 	}
+	if marker == nil {
+		marker = new(int64)
+	}
+	d := &DB{Dir: dir, Schema: s, Conf: conf, marker: marker, streams: streamsOf(s)}
 	z, err := zenodb.NewDB(&zenodb.DBOpts{
 		Dir:                       dir,
 		VirtualTime:               true,
 		IterationCoalesceInterval: coalesce,
 		MaxMemoryRatio:            conf.MaxMemoryRatio,
+		Panic:                     d.onPanic,
 	})
 	if err != nil {
 		return nil, err
 	}
-	if marker == nil {
-		marker = new(int64)
-	}
-	d := &DB{Z: z, Dir: dir, Schema: s, Conf: conf, marker: marker, streams: streamsOf(s)}
+	d.Z = z
 	if err := z.ApplySchema(ZSchema(s)); err != nil {
 		z.Close()
 		return nil, fmt.Errorf("apply schema: %w", err)
@@ -130,8 +134,31 @@ func (d *DB) Apply(s *Schema) error {
 	return d.WaitQuiet()
 }
 
+// onPanic replaces zenodb's fatal-error hook. WAL reader goroutines outlive
+// Close and call it once the scratch directory is gone; those are parked.
+// A Panic while the database is open is remembered and reported by the case.
+func (d *DB) onPanic(v interface{}) {
+	if atomic.LoadInt32(&d.closed) == 0 {
+		if d.panics.Load() == nil {
+			d.panics.Store(fmt.Sprint(v))
+		}
+	}
+	select {}
+}
+
+// Panicked returns the first fatal error zenodb raised while the DB was open.
+func (d *DB) Panicked() string {
+	if v := d.panics.Load(); v != nil {
+		return v.(string)
+	}
+	return ""
+}
+
 // Close closes the database.
-func (d *DB) Close() { d.Z.Close() }
+func (d *DB) Close() {
+	atomic.StoreInt32(&d.closed, 1)
+	d.Z.Close()
+}
 
 // Insert inserts one point into a stream.
 func (d *DB) Insert(stream string, p Point) error {
@@ -161,6 +188,9 @@ func (d *DB) Quiesce() error {
 		}
 		if ok {
 			return nil
+		}
+		if p := d.Panicked(); p != "" {
+			return fmt.Errorf("zenodb raised a fatal error (DBOpts.Panic) while ingesting: %s", p)
 		}
 		if time.Now().After(deadline) {
 			return fmt.Errorf("%w: quiesce timed out: %+v", ErrInconclusive, d.Z.VerifProgress())
